@@ -651,6 +651,7 @@ func finish(cfg Config, m *Merged, tier string, seed int64, start time.Time, bud
 	}
 	sort.Strings(sigs)
 	var knownHit []string
+	nConfirmed := 0
 	nUnlisted := 0
 	w := bufio.NewWriter(os.Stdout)
 	defer w.Flush()
@@ -668,7 +669,11 @@ func finish(cfg Config, m *Merged, tier string, seed int64, start time.Time, bud
 			"count": g.Count, "detail": v.Detail, "more": g.First[1:]}, "", "  ")
 		os.WriteFile(rp, rb, 0644)
 		w.Flush()
-		_, nrep := confirm(cfg, tier, seed, v, env)
+		nrep := -1
+		if nConfirmed < 6 {
+			_, nrep = confirm(cfg, tier, seed, v, env)
+			nConfirmed++
+		}
 		// The observation was made on the real code and is reported whatever the replay says; a replay that does not
 		// reproduce 5/5 means the behaviour depends on nondeterminism the harness cannot own (Go map iteration order).
 		fmt.Fprintf(w, "VIOLATION property=%s replay=%s\n", cfg.Property, rp)
@@ -866,6 +871,12 @@ func sanitize(s string) string {
 		switch {
 		case r >= 'a' && r <= 'z', r >= 'A' && r <= 'Z', r >= '0' && r <= '9', r == '-', r == '_', r == '.':
 			b.WriteRune(r)
+		case r == '<':
+			b.WriteString("lt")
+		case r == '>':
+			b.WriteString("gt")
+		case r == '=':
+			b.WriteString("eq")
 		default:
 			b.WriteByte('_')
 		}
